@@ -991,6 +991,14 @@ class _GenerateRenderMethod:
             def visitBlockTag(s, node):
                 s.visitDefOrBase(node)
 
+            def visitCallTag(s, node):
+                # the defs of a call nested in this call's body belong
+                # to that call
+                pass
+
+            def visitCallNamespaceTag(s, node):
+                pass
+
             def visitDefOrBase(s, node):
                 self.write_inline_def(node, callable_identifiers, nested=False)
                 if not node.is_anonymous:
